@@ -12,6 +12,9 @@ import (
 	"encoding/json"
 	"fmt"
 	"math/rand"
+	"runtime"
+	"sync"
+	"sync/atomic"
 	"testing"
 	"time"
 )
@@ -986,6 +989,7 @@ func vfHwC04Replay(env *vfEnv) {
 // damaged encodings through the real decoder; TLC (Trace.tla, TraceC04.cfg) recomputes every
 // line with Huffman.tla over the RFC table.
 func vfHwC04Record(env *vfEnv) {
+	defer vfHwC04Concurrent(env, env.Int("traces", 20))
 	n := env.Int("traces", 20)
 	per := env.Int("per", 12)
 	maxLen := env.Int("maxlen", 64)
@@ -1069,4 +1073,141 @@ func vfHwC04Record(env *vfEnv) {
 			env.Emit(t, map[string]any{"e": "dec", "in": vfHwBytesToInts(d), "ok": dderr == nil, "out": vfHwBytesToInts(dd.Bytes()), "how": how})
 		}
 	}
+}
+
+// ---------------------------------------------------------------------------- C04 first use
+
+func vfHwBytesDigest(b []byte) int {
+	h := uint32(2166136261)
+	for _, c := range b {
+		h ^= uint32(c)
+		h *= 16777619
+	}
+	return int(h & 0x3fffffff)
+}
+
+// vfHwC04Concurrent: first use of the Huffman decoder by several goroutines at once
+// (specs/hpackwire/HuffInit.tla).  Every round recreates "first use in a fresh process" by
+// resetting the lazily built decoding tree while no goroutine is running (input construction),
+// then releases k = 2..6 goroutines together, each after its own swept spin delay, to decode
+// the canonical encoding of a string of high octet values (their symbols enter the tree last).
+// One trace = one group of rounds: the inputs (validated by TLC against Huffman.tla) followed
+// by one line per decode (input id, error?, digest and length of the output).  The contract
+// judged by TraceC04.tla is that of a pure function: every decode of a canonical encoding
+// succeeds and returns the string, whatever other goroutines are doing.
+func vfHwC04Concurrent(env *vfEnv, firstTrace int) {
+	rounds := env.Int("rounds", 0)
+	if rounds <= 0 || env.Hung {
+		return
+	}
+	group := env.Int("group", 500)
+	budget := time.Duration(env.Int("budget_ms", 6000)) * time.Millisecond
+	procs := runtime.GOMAXPROCS(0)
+	// inputs: 8 strings of 32 octet values, highest first, plus their canonical encodings
+	type input struct {
+		s, enc []byte
+	}
+	var ins []input
+	for hi := 255; hi >= 31; hi -= 32 {
+		s := make([]byte, 32)
+		for j := range s {
+			s[j] = byte(hi - j)
+		}
+		ins = append(ins, input{s: s, enc: AppendHuffmanString(nil, string(s))})
+	}
+	// calibrate the spin range to about twice the time one tree construction takes
+	buildRootOnce, lazyRootHuffmanNode = sync.Once{}, nil
+	t0 := time.Now()
+	getRootHuffmanNode()
+	build := time.Since(t0)
+	var sink uint64
+	spin := func(n int) {
+		x := uint64(n)
+		for i := 0; i < n; i++ {
+			x = x*6364136223846793005 + 1442695040888963407
+		}
+		atomic.AddUint64(&sink, x)
+	}
+	t0 = time.Now()
+	spin(1 << 20)
+	perSpin := float64(time.Since(t0)) / float64(1<<20)
+	if perSpin <= 0 {
+		perSpin = 1
+	}
+	maxSpin := int(2*float64(build)/perSpin) + 64
+	rnd := env.Rand(int64(3000))
+	deadline := time.Now().Add(budget)
+	type result struct {
+		id, n, outd int
+		ok      bool
+		p       string
+	}
+	for r := 0; r < rounds && !env.Hung && time.Now().Before(deadline); r++ {
+		t := firstTrace + 1 + r/group
+		if !env.Only(t) {
+			continue
+		}
+		if r%group == 0 {
+			env.Emit(t, map[string]any{"e": "hdr", "conc": true, "procs": procs, "build_ns": int(build), "maxspin": maxSpin})
+			for id, in := range ins {
+				env.Emit(t, map[string]any{"e": "input", "id": id + 1, "s": vfHwBytesToInts(in.s), "in": vfHwBytesToInts(in.enc),
+					"sd": vfHwBytesDigest(in.s), "n": len(in.s)})
+			}
+		}
+		k := 2 + r%5
+		res := make([]result, k)
+		delays := make([]int, k)
+		for g := 1; g < k; g++ {
+			// sweep the window: a regular sweep for goroutine 1, random offsets for the others
+			if g == 1 {
+				delays[g] = (r * 37) % maxSpin
+			} else {
+				delays[g] = rnd.Intn(maxSpin)
+			}
+		}
+		// fresh process: nothing is running, the tree has never been built
+		buildRootOnce, lazyRootHuffmanNode = sync.Once{}, nil
+		var flag int32
+		var ready, done sync.WaitGroup
+		for g := 0; g < k; g++ {
+			ready.Add(1)
+			done.Add(1)
+			go func(g int) {
+				defer done.Done()
+				id := (r + g) % len(ins)
+				if g > 0 && r%3 != 0 {
+					id = g % 2 // mostly the two highest ranges
+				}
+				ready.Done()
+				for i := 0; atomic.LoadInt32(&flag) == 0; i++ {
+					if i&1023 == 1023 {
+						runtime.Gosched()
+					}
+				}
+				spin(delays[g])
+				var out bytes.Buffer
+				var err error
+				p := vfCatch(func() { _, err = HuffmanDecode(&out, ins[id].enc) })
+				res[g] = result{id: id + 1, n: out.Len(), outd: vfHwBytesDigest(out.Bytes()), ok: err == nil && p == "", p: p}
+			}(g)
+		}
+		hung := vfCatchTimeout(10*time.Second, func() {
+			ready.Wait()
+			atomic.StoreInt32(&flag, 1)
+			done.Wait()
+		})
+		if hung != "" {
+			env.Emit(t, map[string]any{"e": "hang", "what": hung, "round": r})
+			env.Hung = true
+			return
+		}
+		for g, x := range res {
+			if x.p != "" {
+				env.Emit(t, map[string]any{"e": "panic", "what": x.p, "round": r, "g": g, "id": x.id})
+				continue
+			}
+			env.Emit(t, map[string]any{"e": "cres", "round": r, "g": g, "k": k, "id": x.id, "ok": x.ok, "outd": x.outd, "n": x.n, "delay": delays[g]})
+		}
+	}
+	buildRootOnce, lazyRootHuffmanNode = sync.Once{}, nil
 }
